@@ -796,6 +796,59 @@ theorem multi_errors_persisted (host : Bool) (root : Str) (st : Store) (name : S
     have : (ps.filter (okP host)).isEmpty = false := by simpa [List.isEmpty_iff] using h1
     simp [this]
 
+/-- the errors that arise while the value is serialized: none without a value; for a single-output
+    component the one traceback `marshal` returns (a string), for a multi-output component the list
+    of the failing elements' tracebacks, in element order -/
+def serErrors (host : Bool) : Option Value → List Fault
+  | none => []
+  | some (.single p) => (faultOf host p).toList
+  | some (.multi ps) => ps.filterMap (faultOf host)
+
+theorem marshal_errors (host : Bool) (root : Str) (fs : FS) (v : Option Value) :
+    (marshal host root fs v).2.1 = serErrors host v := by
+  match v with
+  | none => rfl
+  | some (.single p) =>
+    simp only [marshal, serErrors, faultOf, serializeOne]
+    cases writeText host p <;> rfl
+  | some (.multi ps) =>
+    simp only [marshal, serErrors]
+    exact (multi_order host root fs ps).2
+
+/-- `errors_complete`: the document's `errors` are EXACTLY the tracebacks the broker recorded against
+    the component during evaluation followed by the errors of serializing its value — every one of
+    them, each once, none invented — for a component without a value, a single-output and a
+    multi-output one, whatever the numbers on either side (0, 1, 2, … evaluation errors; 0/1 resp.
+    0..k serialization errors). -/
+theorem errors_complete (host : Bool) (root : Str) (fs : FS) (name : Str) (recorded : List Fault) (v : Option Value) :
+    (docFor host root fs name recorded v).errors = recorded ++ serErrors host v ∧
+    (∀ e ∈ recorded, e ∈ (docFor host root fs name recorded v).errors) ∧
+    (∀ e ∈ serErrors host v, e ∈ (docFor host root fs name recorded v).errors) ∧
+    (docFor host root fs name recorded v).errors.length = recorded.length + (serErrors host v).length := by
+  have h : (docFor host root fs name recorded v).errors = recorded ++ serErrors host v := by
+    simp only [docFor, marshal_errors]
+  refine ⟨h, ?_, ?_, ?_⟩
+  · intro e he; rw [h]; exact List.mem_append_left _ he
+  · intro e he; rw [h]; exact List.mem_append_right _ he
+  · rw [h, List.length_append]
+
+/-- … and whenever there is any error at all, that document is the one in the archive -/
+theorem errors_complete_written (host : Bool) (root : Str) (st : Store) (name : Str) (recorded : List Fault)
+    (v : Option Value) (h : recorded ++ serErrors host v ≠ []) :
+    ∃ d, metaGet (dehydrate host root st name recorded v).entries name = some (.json d) ∧
+      d.errors = recorded ++ serErrors host v := by
+  have hw := (dehydrate_written_iff host root st name recorded v).1
+  have he := (errors_complete host root st.fs name recorded v).1
+  exact ⟨_, hw (Or.inr (by rw [he]; exact h)), he⟩
+
+/-- single-output: two evaluation errors and a command that fails only when it is written -/
+example : (docFor true [] [] ['s'] [1000, 1001] (some (.single { kind := .command, relativePath := ['x'], load := .error 7 }))).errors
+    = [1000, 1001, 7] := by decide
+/-- multi-output: one evaluation error, elements 1 and 3 of three fail -/
+example : (docFor true [] [] ['s'] [1000] (some (.multi
+      [{ kind := .command, relativePath := ['a'], load := .error 7 }, { kind := .command, relativePath := ['b'], load := .ok [['o']] },
+       { kind := .command, relativePath := ['c'], load := .error 8 }]))).errors = [1000, 7, 8] := by decide
+
 /-! ### 5b. a component whose serialization fails has no effect on the others -/
 
 /-- every element's serializer fails (content empty after filtering / cleaning under a HostContext, an
